@@ -216,6 +216,26 @@ class Body:
             st.extend(succ(b))
         return seen
 
+    def cyclic_blocks(self, succ=None):
+        """Blocks lying on a cycle of the (await-collapsed by default) normal-edge CFG."""
+        succ = succ or self.succ_noawait
+        key = ("cyc", succ.__name__)
+        if key in self._reach_cache:
+            return self._reach_cache[key]
+        reach = self.reachable_from(0, succ=succ)
+        out = set()
+        # simple: b is cyclic iff b reachable from one of its successors
+        memo = {}
+        for b in reach:
+            for s in succ(b):
+                if s not in memo:
+                    memo[s] = self.reachable_from(s, succ=succ)
+                if b in memo[s]:
+                    out.add(b)
+                    break
+        self._reach_cache[key] = out
+        return out
+
     def return_blocks(self):
         return [i for i, b in enumerate(self.blocks) if b["t"]["k"] == "return" and not b.get("cleanup")]
 
